@@ -264,6 +264,7 @@ def run(ctx):
     ctx.do(c10.r10_3)
     ctx.do(c06.r6_6)
     ctx.do(c05.r5_7)
+    ctx.do(c05.r5_3b)
     ctx.note("R15.2 unit kinds (UID vs sequence-number lists at operation boundaries) decided by C10 R10.4; bounded expansion by C06 R6.6")
     for k, v in ALLOWED_DESTRUCTURE.items():
         ctx.trust(f"frozen: may destructure a message set: {k} - {v}")
